@@ -369,6 +369,14 @@ def c19(lines, out):
     # outnumber the transitions of X seen so far
     seen, enters, leaves = {}, {}, {}
     got = {}
+    # a refusing start callback stops its module inside the same call, possibly without any trace of its own before the
+    # notification is handed over (no stop hook): while such a module is still shown as RUNNING, one more stop is allowed for
+    refusals = {}
+    for rr in tr.recs:
+        for (i2, val) in rr.cbrets:
+            pi = parse_invoke(i2)
+            if pi[0] == 'on_start' and not val:
+                refusals[pi[2]] = refusals.get(pi[2], 0) + 1
 
     def observe(x, st):
         # (the evaluation pass of the loop starts IDLE modules without any trace of its own when they have no start hook:
@@ -391,6 +399,8 @@ def c19(lines, out):
                         key = (h, f[0], f[1])
                         got[key] = got.get(key, 0) + 1
                         lim = (enters if f[0].endswith('STARTED') else leaves).get(f[1], 0)
+                        if f[0].endswith('STOPPED') and seen.get(f[1]) in ('R', 'P') and refusals.get(f[1]):
+                            lim += 1      # the stop that follows a refusing start callback, not yet shown by any state line
                         if f[0].endswith('STARTED') and seen.get(f[1], 'I') == 'I':
                             lim += 1      # started by the evaluation pass of this very call, not yet shown
                         if got[key] > lim:
